@@ -290,8 +290,9 @@ def g3(run: Run, prog: Program):
     # geographic node weights use cos(lat)
     gn = prog.classes.get("GeoNetwork")
     m = gn.methods["set_node_weight_type"]
-    src = ast.unparse(m.node)
-    ok = src.count("self.grid.cos_lat()") >= 2 and "cos_lon" not in src and \
+    from .idioms import private_closure
+    src = "\n".join(ast.unparse(g.node) for g in private_closure(prog, gn, [m]))
+    ok = src.count(".grid.cos_lat()") >= 2 and "cos_lon" not in src and \
         "sin_lat" not in src
     expect("GeoNetwork.set_node_weight_type", "cos-lat", ok, m.where,
            "geographic node weights must be (powers of) the cosine of latitude")
